@@ -32,6 +32,9 @@ type HarnessSpec struct {
 	RequireReach   []string           `json:"require_reach"`
 	MapRot         bool               `json:"maprot"`
 	SchedAll       bool               `json:"sched_all"`
+	PreemptBound   int                `json:"preempt_bound"`
+	PreemptFuncs   []string           `json:"preempt_funcs"`
+	PreemptBoundThorough int          `json:"preempt_bound_thorough"`
 	MaxPaths       int64              `json:"max_paths"`
 	MaxSeconds     int                `json:"max_seconds"`
 	MaxSecondsThorough int            `json:"max_seconds_thorough"`
@@ -296,7 +299,10 @@ func cmdRun(args []string) int {
 			}
 			params := mergeParams(hs.Params, tp, cfg)
 			job := &Job{P: P, Fn: fn, Name: hs.Name + cfgString(cfg), Params: params, Unwind: hs.Unwind, MaxSteps: hs.MaxSteps,
-				MaxPaths: hs.MaxPaths, MapRot: hs.MapRot, SchedAll: hs.SchedAll, Known: knownKeys}
+				MaxPaths: hs.MaxPaths, MapRot: hs.MapRot, SchedAll: hs.SchedAll, PreemptBound: hs.PreemptBound, PreemptFuncs: hs.PreemptFuncs, Known: knownKeys}
+			if *tier == "thorough" && hs.PreemptBoundThorough > 0 {
+				job.PreemptBound = hs.PreemptBoundThorough
+			}
 			secs := hs.MaxSeconds
 			if *tier == "thorough" && hs.MaxSecondsThorough > 0 {
 				secs = hs.MaxSecondsThorough
